@@ -392,7 +392,15 @@ class Shape:
             self.report('dim', e, 'comparison of quantities of different dimension: %s vs %s' % (le, re_))
         out = self.broadcast(e, l, r, BoolT())
         if isinstance(out, Arr):
-            out.mask = (type(e.ops[0]).__name__, le, re_, e)
+            opn = type(e.ops[0]).__name__
+            node = e
+            # canonical orientation: the array operand on the left (`thr <= x` is recorded as `x >= thr`), so rules do not depend on the spelling
+            if not isinstance(l, Arr) and isinstance(r, Arr) and opn in ('Lt', 'LtE', 'Gt', 'GtE', 'Eq', 'NotEq'):
+                opn = {'Lt': 'Gt', 'LtE': 'GtE', 'Gt': 'Lt', 'GtE': 'LtE'}.get(opn, opn)
+                le, re_ = re_, le
+                node = ast.copy_location(ast.Compare(left=e.comparators[0], ops=[{'Lt': ast.Lt, 'LtE': ast.LtE, 'Gt': ast.Gt, 'GtE': ast.GtE, 'Eq': ast.Eq, 'NotEq': ast.NotEq}[opn]()],
+                                                     comparators=[e.left]), e)
+            out.mask = (opn, le, re_, node)
         return out
 
     # ---- arithmetic
